@@ -47,6 +47,9 @@ impl RefDecoder {
         RefDecoder { cs: 128, streams: HashMap::new(), strict, notes: vec![], sequential_only: false, current: None, hdr_bytes: vec![], seq_violation: false }
     }
 
+    /// no message is partially assembled on any chunk stream
+    pub fn idle(&self) -> bool { self.streams.values().all(|s| !s.in_flight) }
+
     /// decode a complete byte string; returns messages in completion order
     pub fn decode_all(&mut self, bs: &[u8]) -> Result<Vec<RMsg>, String> {
         let mut pos = 0usize;
